@@ -19,21 +19,35 @@ import numpy as np
 
 from ..contracts import attach, detach_all, quiet
 from ..core import REPO, max_err
+from ..polyhard import cfg32, clear_caches, warm32, layouts, is_c_contig, contig, order_containers, coef_containers
 from ..refmodels import diffops_poly as D
+from ..util import precision
 
 RULE = ('one case = one call of a derivative routine for one (function, order/coefficient-structure class, parameter '
         'class, coordinate-shape class); orders enumerated from 0 upward (0 and 1 always present), coefficient '
         'vectors dense / sparse / length 1, derivative orders j=1..4 incl. j >= len(s); a case is non-trivial when the '
         'value routine is not constant on the evaluation set or the routine is asked for a derivative that must be '
-        'exactly zero; distinct = distinct descriptor')
+        'exactly zero; distinct = distinct descriptor. Hardening classes: history units (memo tables emptied where possible, then {float32 low | float32 '
+        'high | no} session under config.precision = 32, then orders 2,5,3,17,18,19,16,41,40,7,0,1,4 or descending for parameter sets sharing table keys: '
+        '*_der, *_der_seq; Zernike radial orders 1,2,9,20,8,0,19,3 for m = 0,1,-2,4,-4; Clenshaw sums of 3,6,19,42,18,4,41,1,2 coefficients for the same '
+        '(alpha, beta) / m, j = 1,2, and the three sag-and-slope evaluators); aliasing (ONE float64 coefficient array / strided array / list / tuple handed '
+        'to clenshaw_qbfs, compute_z_zprime_Qbfs, clenshaw_qbfs_der, jacobi_sum_clenshaw(_der), compute_z_zprime_Qcon, the change-of-basis helpers, '
+        'clenshaw_q2d(_der) and compute_z_zprime_Q2d in turn, every slope judged against the derivative of the explicit sum with the PRISTINE '
+        'coefficients; one coordinate object shared by consecutive *_der / *_der_seq / zernike_nm_der calls; earlier results must survive); memory '
+        'layouts of coordinates; containers of order lists and coefficient vectors; config.precision = 32 (orders <= 8, <= 12 coefficients); orders '
+        '18, 19, 41, 60 and sums of 19 / 41 / 42 coefficients in the quick tier too')
 ASSUMPTIONS = ['the value routines are what is being differentiated (their own correctness is C07/C10)',
                'Chebyshev interpolation at >= degree+3 nodes is exact for polynomials; trigonometric interpolation at '
                '> 2*degree nodes is exact for trigonometric polynomials; complex step is exact to round-off for analytic f',
                'tolerance 1e-8*sup|reference derivative on the interval| + 1e-10*sup|value|*(2/width)^k (1e-7 for Clenshaw '
-               'derivative rows of order >= 3, 2e-4 for float32 input); '
+               'derivative rows of order >= 3; float32 input or config.precision = 32: 2e-3 for *_der of order <= 8, 5e-3 for Clenshaw rows of <= 12 coefficients); '
                'oracle self-disagreement must be 100x below that or the case is excluded and counted',
-               'an enclosing evaluator is not blamed for a mismatch on a call during which an inner contract fired']
-REQUIRED = ['der1d', 'der_seq', 'zernike_nm_der.dr', 'zernike_nm_der.dt', 'zernike_nm_der_seq',
+               'an enclosing evaluator is not blamed for a mismatch on a call during which an inner contract fired',
+               'the Chebyshev interpolation interval always contains the evaluation points (first-kind nodes never touch the end points, so the prefixes '
+               'x(1-x) and u^m can be divided out on [0, 1])',
+               'integer-typed coefficient arrays are excluded and counted here (their value defect is recorded under C10)',
+               'emptying prysm\'s memo tables (functools cache_clear, where a helper offers it) never changes what a correct library returns']
+REQUIRED = ['alias.result-stable', 'der1d', 'der_seq', 'zernike_nm_der.dr', 'zernike_nm_der.dt', 'zernike_nm_der_seq',
             'jacobi_sum_clenshaw_der.rows', 'clenshaw_qbfs_der.rows', 'clenshaw_q2d_der.rows',
             'compute_z_zprime_Qbfs.slope', 'compute_z_zprime_Qcon.slope', 'compute_z_zprime_Q2d.dr',
             'compute_z_zprime_Q2d.dt', 'surfaces.sag_der', 'der_direction_cosine_spheroid',
@@ -41,7 +55,34 @@ REQUIRED = ['der1d', 'der_seq', 'zernike_nm_der.dr', 'zernike_nm_der.dt', 'zerni
 
 CTX = None
 TOL = 1e-8
+TOL32 = 2e-3         # single-precision class of the *_der routines (orders <= 8: observed round-off <= 1.4e-6 of scale, 3 decades below)
+TOL32C = 5e-3        # single-precision class of the Clenshaw derivative rows (<= 12 coefficients: observed <= 5e-6 of scale)
 BLAME = [0]          # violations recorded by inner contracts so far (blame assignment)
+HISTORY = [None]     # class label of the history the workload is in (set by the history units), for mechanism keys
+
+
+def mechanism(recheck, coords):
+    """Mechanism class of a failure, found by re-running the routine and its oracle quietly: memory-layout (right for C-contiguous
+    private copies of the coordinates), not-repeatable (right when the same call is made again), history-dependent[:<class>] (right
+    once the memoised recurrence coefficients have been emptied), '' otherwise."""
+    if recheck is None:
+        return ''
+    try:
+        with quiet(), np.errstate(all='ignore'):
+            if recheck(None):
+                return 'not-repeatable'
+            if any(not is_c_contig(c) for c in coords) and recheck(contig):
+                return 'memory-layout'
+            if clear_caches() and recheck(None):
+                return 'history-dependent' + (':' + HISTORY[0] if HISTORY[0] else '')
+    except Exception:  # noqa
+        pass
+    return ''
+
+
+def lowp(*arrs):
+    """Single-precision class: a float32 array among the arguments or prysm configured with precision = 32."""
+    return cfg32() or any(getattr(a, 'dtype', None) == np.float32 for a in arrs)
 
 
 # ------------------------------------------------------------------------------------------ helpers
@@ -59,7 +100,7 @@ def sup(a):
 
 
 def judge(monitor, got, ref, unc, key, what, desc, refsup=0.0, fsup=0.0, dscale=1.0, rtol=TOL, inner=False,
-          blamed=False, **detail):
+          blamed=False, recheck=None, coords=(), **detail):
     """|got-ref| <= rtol*sup|ref| + 1e-10*fsup*dscale, provided the oracle's own uncertainty is 100x smaller."""
     ctx = CTX
     ref = np.asarray(ref)
@@ -84,6 +125,9 @@ def judge(monitor, got, ref, unc, key, what, desc, refsup=0.0, fsup=0.0, dscale=
     if blamed:
         ctx.event('enclosing-evaluator-mismatch-blamed-on-inner-contract:' + monitor)
         return False
+    mech = mechanism(recheck, coords)
+    if mech:
+        key = key + '/' + mech
     ctx.violation(key, what, desc, err=err, tol=tol, scale=scale, **detail)
     if inner:
         BLAME[0] += 1
@@ -230,9 +274,14 @@ def post_jacobi_sum_clenshaw_der(token, args, kwargs, result):
     s = [float(v) for v in a['s']]
     al, be, j = a['alpha'], a['beta'], int(a['j'])
     x = np.asarray(a['x'])
-    if x.dtype.kind != 'f' or x.dtype != np.float64 or j < 1 or len(s) == 0:
+    if x.dtype.kind != 'f' or j < 1 or len(s) == 0:
         return
     n = len(s)
+    f32 = lowp(x, a['s'])
+    if f32 and n > 12:
+        CTX.skip('single-precision Clenshaw derivative rows are judged for <= 12 coefficients only')
+        return
+    x = x.astype(np.float64)
     neff = effective_len(s)
     lo, hi = interval_for(x, -1.0, 1.0)
     desc = {'fn': 'jacobi_sum_clenshaw_der', 'len': n, 'j': j, 'alpha': al, 'beta': be, 'x': shape_label(x),
@@ -247,11 +296,12 @@ def post_jacobi_sum_clenshaw_der(token, args, kwargs, result):
         ref, unc, refsup, fsup = spectral(sample, lo, hi, x, k=jj, K=n + 4)
         if jj >= neff:      # derivative of order > degree: identically zero
             ref, unc, refsup = np.zeros(x.shape), 0.0, 0.0
-        key = 'C09/jacobi_sum_clenshaw_der/' + rowclass(jj, j, n)
+        key = 'C09/jacobi_sum_clenshaw_der/' + rowclass(jj, j, n) + ('/f32' if f32 else '')
         judge('jacobi_sum_clenshaw_der.rows', got, ref, unc, key,
               f'jacobi_sum_clenshaw_der(j={j}): alphas[{jj}][0] is not the derivative of order {jj} of sum s_n P_n', desc,
               refsup=refsup, fsup=fsup, dscale=(2 / (hi - lo)) ** jj, inner=True, row=jj,
-              rtol=TOL if jj <= 2 else 10 * TOL)     # rounding of high-order recurrences grows like degree^(2 jj)
+              rtol=TOL32C if f32 else (TOL if jj <= 2 else 10 * TOL),     # rounding of high-order recurrences grows like degree^(2 jj)
+              recheck=rerun(ORIG['jacobi_sum_clenshaw_der'], args, kwargs, jj, ref, refsup, fsup * (2 / (hi - lo)) ** jj, lambda r_: r_[jj][0]), coords=[a['x']])
 
 
 def post_clenshaw_qbfs_der(token, args, kwargs, result):
@@ -260,11 +310,21 @@ def post_clenshaw_qbfs_der(token, args, kwargs, result):
     cs = [float(v) for v in a['cs']]
     j = int(a['j'])
     x = np.asarray(a['usq'])
-    if x.dtype != np.float64 or j < 1 or len(cs) == 0:
+    if x.dtype.kind != 'f' or j < 1 or len(cs) == 0:
+        return
+    if getattr(a['cs'], 'dtype', None) is not None and a['cs'].dtype.kind in 'iub':
+        CTX.skip('integer-typed coefficient array (the value defect of the change of basis is recorded under C10)')
         return
     n = len(cs)
+    f32 = lowp(x, a['cs'])
+    if f32 and n > 12:
+        CTX.skip('single-precision Clenshaw derivative rows are judged for <= 12 coefficients only')
+        return
+    x = x.astype(np.float64)
     neff = effective_len(cs)
-    lo, hi = 0.03, 0.97     # nodes strictly inside (0,1): the value routine carries the prefix x(1-x) that is divided out
+    # first-kind Chebyshev nodes lie strictly inside the interval, so [0, 1] is safe for the prefix x(1-x) that is divided out;
+    # the interval must CONTAIN the evaluation points (extrapolating a degree-40 interpolant costs 6 digits)
+    lo, hi = interval_for(x, 0.0, 1.0)
     desc = {'fn': 'clenshaw_qbfs_der', 'len': n, 'j': j, 'x': shape_label(x),
             'class': f'clenshaw_qbfs_der:{lenclass(n)}:{jclass(j, n)}'}
 
@@ -278,11 +338,13 @@ def post_clenshaw_qbfs_der(token, args, kwargs, result):
         ref, unc, refsup, fsup = spectral(sample, lo, hi, x, k=jj, K=n + 4)
         if jj >= neff:      # derivative of order > degree: identically zero
             ref, unc, refsup = np.zeros(x.shape), 0.0, 0.0
-        key = 'C09/clenshaw_qbfs_der/' + rowclass(jj, j, n)
+        key = 'C09/clenshaw_qbfs_der/' + rowclass(jj, j, n) + ('/f32' if f32 else '')
         judge('clenshaw_qbfs_der.rows', got, ref, unc, key,
               f'clenshaw_qbfs_der(j={j}): 2(alphas[{jj}][0]+alphas[{jj}][1]) is not d^{jj}/dx^{jj} of sum c_n Q_n(x)', desc,
               refsup=refsup, fsup=fsup, dscale=(2 / (hi - lo)) ** jj, inner=True, row=jj,
-              rtol=TOL if jj <= 2 else 10 * TOL)     # rounding of high-order recurrences grows like degree^(2 jj)
+              rtol=TOL32C if f32 else (TOL if jj <= 2 else 10 * TOL),     # rounding of high-order recurrences grows like degree^(2 jj)
+              recheck=rerun(ORIG['clenshaw_qbfs_der'], args, kwargs, jj, ref, refsup, fsup * (2 / (hi - lo)) ** jj,
+                            lambda r_: 2 * (r_[jj][0] + (r_[jj][1] if n > 1 else 0))), coords=[a['usq']])
 
 
 def post_clenshaw_q2d_der(token, args, kwargs, result):
@@ -291,11 +353,19 @@ def post_clenshaw_q2d_der(token, args, kwargs, result):
     cs = [float(v) for v in a['cns']]
     m, j = int(a['m']), int(a['j'])
     x = np.asarray(a['usq'])
-    if x.dtype != np.float64 or j < 1 or len(cs) == 0 or m < 1:
+    if x.dtype.kind != 'f' or j < 1 or len(cs) == 0 or m < 1:
+        return
+    if getattr(a['cns'], 'dtype', None) is not None and a['cns'].dtype.kind in 'iub':
+        CTX.skip('integer-typed coefficient array (the value defect of the change of basis is recorded under C10)')
         return
     n = len(cs)
+    f32 = lowp(x, a['cns'])
+    if f32 and n > 12:
+        CTX.skip('single-precision Clenshaw derivative rows are judged for <= 12 coefficients only')
+        return
+    x = x.astype(np.float64)
     neff = effective_len(cs)
-    lo, hi = 0.03, 1.0
+    lo, hi = interval_for(x, 0.0, 1.0)      # nodes strictly inside: u^m is divided out; the interval contains the evaluation points
     desc = {'fn': 'clenshaw_q2d_der', 'len': n, 'j': j, 'm': m, 'x': shape_label(x),
             'class': f'clenshaw_q2d_der:{lenclass(n)}:{jclass(j, n)}:m={"1" if m == 1 else ">=2"}'}
 
@@ -312,11 +382,34 @@ def post_clenshaw_q2d_der(token, args, kwargs, result):
         ref, unc, refsup, fsup = spectral(sample, lo, hi, x, k=jj, K=n + 4)
         if jj >= neff:      # derivative of order > degree: identically zero
             ref, unc, refsup = np.zeros(x.shape), 0.0, 0.0
-        key = 'C09/clenshaw_q2d_der/' + rowclass(jj, j, n)
+        key = 'C09/clenshaw_q2d_der/' + rowclass(jj, j, n) + ('/f32' if f32 else '')
+
+        def pick(r_, jj=jj):
+            g_ = 0.5 * r_[jj][0]
+            return g_ - 2 / 5 * r_[jj][3] if (m == 1 and n - 1 > 2) else g_
         judge('clenshaw_q2d_der.rows', got, ref, unc, key,
               f'clenshaw_q2d_der(j={j}): the alpha sums of row {jj} are not d^{jj}/dx^{jj} of sum c_n Q_n^m(x)', desc,
               refsup=refsup, fsup=fsup, dscale=(2 / (hi - lo)) ** jj, inner=True, row=jj,
-              rtol=TOL if jj <= 2 else 10 * TOL)     # rounding of high-order recurrences grows like degree^(2 jj)
+              rtol=TOL32C if f32 else (TOL if jj <= 2 else 10 * TOL),     # rounding of high-order recurrences grows like degree^(2 jj)
+              recheck=rerun(ORIG['clenshaw_q2d_der'], args, kwargs, jj, ref, refsup, fsup * (2 / (hi - lo)) ** jj, pick), coords=[a['usq']])
+
+
+ORIG = {}
+
+
+def rerun(orig, args, kwargs, jj, ref, refsup, atol_scale, pick):
+    """recheck(transform) for mechanism(): call the ORIGINAL routine again with the same (or layout-transformed) arguments and
+    compare the row with the reference already computed (the reference does not depend on layout; after a cache reset the value
+    routine is re-sampled by the caller's oracle only through `ref`, so a history that poisoned both sides equally stays '')."""
+    def recheck(tr):
+        a2 = [tr(v) if (tr is not None and isinstance(v, np.ndarray)) else v for v in args]
+        k2 = {k: (tr(v) if (tr is not None and isinstance(v, np.ndarray)) else v) for k, v in kwargs.items()}
+        r_ = np.asarray(orig(*a2, **k2))
+        got = np.asarray(pick(r_), dtype=float)
+        r = np.asarray(ref)
+        tol = TOL * max(float(refsup), sup(r)) + 1e-10 * float(atol_scale)
+        return got.shape == r.shape and max_err(got, r) <= 10 * tol
+    return recheck
 
 
 def conic_domain_ok(c, k, A):
@@ -379,11 +472,19 @@ def install():
     J = importlib.import_module('prysm.polynomials.jacobi')
     Q = importlib.import_module('prysm.polynomials.qpoly')
     S = importlib.import_module('prysm.x.raytracing.surfaces')
+    ORIG.update(jacobi_sum_clenshaw_der=J.jacobi_sum_clenshaw_der, clenshaw_qbfs_der=Q.clenshaw_qbfs_der, clenshaw_q2d_der=Q.clenshaw_q2d_der)
     attach(J, 'jacobi_sum_clenshaw_der', post=post_jacobi_sum_clenshaw_der)
     attach(Q, 'clenshaw_qbfs_der', post=post_clenshaw_qbfs_der)
     attach(Q, 'clenshaw_q2d_der', post=post_clenshaw_q2d_der)
     attach(S, 'off_axis_conic_der', post=post_off_axis_conic_der)
     attach(S, 'off_axis_conic_sigma_der', post=post_off_axis_conic_sigma_der)
+
+
+def install_monitors(ctx):
+    """Attach the call-level contracts for vp/pytest_monitors.py (the repository's own tests as traffic)."""
+    global CTX
+    CTX = ctx
+    install()
 
 
 # ------------------------------------------------------------------------------------------ workload pieces
@@ -404,7 +505,7 @@ def xsets(rng, lo, hi, ends=True, f32=False):
 
 def families():
     from prysm import polynomials as p
-    extra = 0 if CTX.quick else 4
+    extra = 0 if CTX.quick else 10
     jac_params = [(-0.5, -0.5), (0.5, 0.5), (-0.5, 0.5), (0.5, -0.5), (0, 0), (0, 4), (0.3, -0.3), (-0.3, -0.7), 'rand', 'rand'] + ['rand'] * extra
     lag_params = [0, 0.5, -0.5, 2, 'rand'] + ['rand'] * extra
 
@@ -440,7 +541,7 @@ def realise(params, rng, name):
 
 
 def run_1d(ctx, counter):
-    nmax = ctx.pick(12, 60)
+    nmax = ctx.pick(12, 80)
     for name, plist, make, lo, hi, seq2d in families():
         for pi, params in enumerate(plist):
             for n in range(0, nmax + 1):
@@ -466,7 +567,7 @@ def run_1d(ctx, counter):
                             ref, unc, refsup, fsup = spectral(lambda nodes: val(n, nodes), lo, hi, x, 1, K)
                         key = f'C09/{name}_der/{"n=0" if n == 0 else "n>=1"}' + ('/f32' if f32 else '')
                         ok = judge('der1d', got, ref, unc, key, f'{name}_der(n) is not d/dx of {name}(n)', desc,
-                                   refsup=refsup, fsup=fsup, dscale=2 / (hi - lo), rtol=2e-4 if f32 else TOL)
+                                   refsup=refsup, fsup=fsup, dscale=2 / (hi - lo), rtol=TOL32 if f32 else TOL)
                         all_ok = all_ok and ok is not False
                     all_ok = all_ok and not g.raised
 
@@ -474,14 +575,14 @@ def run_1d(ctx, counter):
 def order_lists(rng, nmax, quick):
     lists = [[0], [1], [2], [3], [0, 1], [0, 1, 2], [1, 2, 3], [0, 2, 5], [2, 4, 7], [3, 4], [0, 4], [1, 3, 6, 7],
              list(range(0, 7)), [nmax], [0, nmax], [1, nmax - 1, nmax]]
-    for _ in range(2 if quick else 8):
+    for _ in range(2 if quick else 30):
         k = int(rng.integers(2, 7))
         lists.append(sorted(set(int(v) for v in rng.integers(0, nmax + 1, k))))
     return lists
 
 
 def run_seq(ctx, counter):
-    nmax = ctx.pick(12, 60)
+    nmax = ctx.pick(12, 80)
     for name, plist, make, lo, hi, seq2d in families():
         for pi, params in enumerate(plist):
             rng0 = case_rng('seq-lists', name, pi)
@@ -551,7 +652,7 @@ def zernike_oracle(zernike_nm, n, m, r, t, norm):
 
 def run_zernike(ctx, counter):
     from prysm.polynomials import zernike_nm, zernike_nm_der, zernike_nm_der_seq
-    nmax = ctx.pick(12, 40)
+    nmax = ctx.pick(12, 50)
     nms = [(n, m) for n in range(0, nmax + 1) for m in range(-n, n + 1, 2)]
     for (n, m) in nms:
         counter[0] += 1
@@ -572,7 +673,7 @@ def run_zernike(ctx, counter):
                     judge('zernike_nm_der.dt', dt, rt_, ut, f'C09/zernike_nm_der/dt/{mclass(m)}',
                           'zernike_nm_der: dZ/dt is not the azimuthal derivative of zernike_nm', desc, refsup=ts, fsup=fs2, dscale=1.0)
     # sequence form
-    nlists = ctx.pick(40, 400)
+    nlists = ctx.pick(40, 1600)
     for li in range(nlists):
         counter[0] += 1
         if not ctx.mine(counter[0]):
@@ -611,7 +712,7 @@ def coef_sets(rng, nmax, quick):
             v = [0.0] * L
             v[pos] = float(rng.normal()) or 1.0
             out.append((f'sparse-single', v))
-    lens = [2, 3, 4, 5, 8, nmax] if quick else [2, 3, 4, 5, 6, 8, 12, 20, nmax]
+    lens = [2, 3, 4, 5, 8, nmax] if quick else [2, 3, 4, 5, 6, 8, 12, 17, 18, 20, 30, 41, nmax]
     for L in lens:
         out.append(('dense', [float(v) for v in rng.normal(size=L)]))
     for L in (5, 9, nmax):
@@ -626,7 +727,7 @@ def run_clenshaw(ctx, counter):
     """direct calls of the three Clenshaw derivative routines, j = 1..4; the contracts do the checking."""
     from prysm.polynomials import jacobi_sum_clenshaw_der
     from prysm.polynomials.qpoly import clenshaw_qbfs_der, clenshaw_q2d_der
-    nmax = ctx.pick(12, 30)
+    nmax = ctx.pick(12, 50)
     jac_params = [(-0.5, -0.5), (0.5, 0.5), (-0.5, 0.5), (0, 0), (0, 4), (0.3, -0.3), (-0.3, -0.7), 'rand']
     for pi, params in enumerate(jac_params):
         rng0 = case_rng('cl-jac-sets', pi)
@@ -690,7 +791,7 @@ def slope_check(monitor, fn, evaluate, u, desc, key, deg, lenlabel):
 
 def run_q1d(ctx, counter):
     from prysm.polynomials.qpoly import compute_z_zprime_Qbfs, compute_z_zprime_Qcon
-    nmax = ctx.pick(12, 30)
+    nmax = ctx.pick(12, 60)
     for which, fn in (('Qbfs', compute_z_zprime_Qbfs), ('Qcon', compute_z_zprime_Qcon)):
         rng0 = case_rng('q1d-sets', which)
         for si, (sl, s) in enumerate(coef_sets(rng0, nmax, ctx.quick)):
@@ -780,7 +881,7 @@ def polar_check(tag, fn, evaluate, r, t, rlo, rhi, Kr, Nt, desc, keybase, lenlab
 
 def run_q2d(ctx, counter):
     from prysm.polynomials.qpoly import compute_z_zprime_Q2d
-    reps = ctx.pick(4, 40)
+    reps = ctx.pick(4, 160)
     for rep in range(reps):
         rng0 = case_rng('q2d-struct', rep)
         for si, (label, cm0, ams, bms) in enumerate(q2d_structures(rng0, ctx.quick)):
@@ -854,7 +955,7 @@ def run_q2d_and_der(ctx, counter):
     bases = [(0.0, 0.0, 0, 0), (1 / 60.0, 0.0, 0, 0), (1 / 60.0, -1.0, 0, 0), (-1 / 45.0, -0.6, 0, 0), (1 / 80.0, 0.4, 0, 0),
              (1 / 60.0, 0.0, 7.0, 0), (1 / 60.0, -0.6, 0, 9.0), (-1 / 90.0, -1.0, 5.0, 0), (0.0, -1.0, 0, 4.0)]
     R = 10.0
-    reps = ctx.pick(2, 16)
+    reps = ctx.pick(2, 48)
     for rep in range(reps):
         rng0 = case_rng('qad-struct', rep)
         structs = [s for s in q2d_structures(rng0, True) if s[0] in ('dense', 'dense-m1-long', 'no-m0', 'm0-only', 'sparse', 'unequal-lengths')]
@@ -908,7 +1009,7 @@ def run_normals(ctx, counter):
             surf = Surface.sphere(kw['c'], 'refl', P=[0, 0, 0], n=None)
         else:
             surf = getattr(Surface, kind)(typ='refl', P=[0, 0, 0], **kw)
-        for rep in range(ctx.pick(4, 24)):
+        for rep in range(ctx.pick(4, 96)):
             x = rng.uniform(-8, 8, 7)
             y = rng.uniform(-8, 8, 7)
             keep = np.hypot(x, y) > 0.5        # r = 0 is C19's on-axis clause
@@ -931,6 +1032,544 @@ def run_normals(ctx, counter):
                       'Surface.sag_normal: (-Fx,-Fy,1) is not the gradient of the returned sag', desc, fsup=sup(z), dscale=4.0)
 
 
+# ------------------------------------------------------------------------------------------ hardening classes (HARDENING.md A-D)
+HIST_VARIANTS = ('f32-low-orders-then-f64', 'f32-high-orders-then-f64', 'f64-low-then-high', 'f64-high-then-low')
+HIST_ORDERS = [2, 5, 3, 17, 18, 19, 16, 41, 40, 7, 0, 1, 4]
+
+
+def hist_orders(variant, top=41):
+    o = HIST_ORDERS if variant != 'f64-high-then-low' else [41, 18, 40, 17, 5, 2, 19, 3, 0, 1]
+    return [min(v, top) for v in o]
+
+
+def der_check(name, val, der, n, x, x0, lo, hi, desc, f32=False, hist=None):
+    """der(n, x) (x: the object handed to the routine) against d/dx of val(n, .) at the PRISTINE coordinate values x0."""
+    def once(xx):
+        got = der(n, xx)
+        with quiet():
+            ref, unc, refsup, fsup = spectral(lambda nodes: val(n, nodes), lo, hi, np.asarray(x0, dtype=float), 1, n + 4)
+        return got, ref, unc, refsup, fsup
+    got, ref, unc, refsup, fsup = once(x)
+
+    def recheck(tr):
+        g2, r2, u2, rs2, fs2 = once(x if tr is None else tr(x))
+        g2, r2 = np.asarray(g2, dtype=float), np.asarray(r2)
+        return g2.shape == r2.shape and max_err(g2, r2) <= 10 * ((TOL32 if f32 else TOL) * max(rs2, sup(r2)) + 1e-10 * fs2 * 2 / (hi - lo))
+    key = f'C09/{name}_der/{"n=0" if n == 0 else "n>=1"}' + ('/f32' if f32 else '')
+    return judge('der1d', got, ref, unc, key, f'{name}_der(n) is not d/dx of {name}(n)', desc, refsup=refsup, fsup=fsup, dscale=2 / (hi - lo),
+                 rtol=TOL32 if f32 else TOL, recheck=recheck, coords=[x])
+
+
+def der_seq_check(name, val, dseq, ns, cont, x, x0, lo, hi, desc, f32=False):
+    got = np.asarray(dseq(cont, x))
+    want = (len(ns),) + np.shape(x0)
+    CTX.observe('der_seq')
+    if got.shape != want:
+        CTX.violation(f'C09/{name}_der_seq/shape', f'{name}_der_seq returned shape {got.shape}, expected {want}', desc)
+        return
+    for row, n in enumerate(ns):
+        with quiet():
+            ref, unc, refsup, fsup = spectral(lambda nodes: val(n, nodes), lo, hi, np.asarray(x0, dtype=float), 1, n + 4)
+
+        def recheck(tr, row=row, ref=ref, refsup=refsup, fsup=fsup):
+            g2 = np.asarray(dseq(cont, x if tr is None else tr(x)), dtype=float)
+            return g2.shape == want and max_err(g2[row], ref) <= 10 * ((TOL32 if f32 else TOL) * max(refsup, sup(ref)) + 1e-10 * fsup * 2 / (hi - lo))
+        judge('der_seq', got[row], ref, unc, f'C09/{name}_der_seq/{"n=0" if n == 0 else "n>=1"}' + ('/f32' if f32 else ''),
+              f'{name}_der_seq row for order n is not d/dx of {name}(n)', desc, refsup=refsup, fsup=fsup, dscale=2 / (hi - lo), row=row, n=n,
+              rtol=TOL32 if f32 else TOL, recheck=recheck, coords=[x])
+
+
+def fam_table():
+    """(name, parameter sets sharing alpha / beta / alpha+beta, make, lo, hi)"""
+    out = []
+    for name, plist, make, lo, hi, seq2d in families():
+        if name == 'jacobi':
+            out.append((name, [(0.25, -0.25), (0.25, 0.75), (-0.25, 0.25), (0, 4)], make, lo, hi))
+            out.append((name, [(-0.5, 0.5), (0.5, -0.5), (0, 0)], make, lo, hi))
+        elif name == 'laguerre':
+            out.append((name, [0.5, -0.5, 1.5], make, lo, hi))
+        else:
+            out.append((name, [None], make, lo, hi))
+    return out
+
+
+def history_1d(ctx, name, plist, make, lo, hi, variant):
+    """Class B/C: der / der_seq / (value) calls order by order for parameter sets that share table keys; memo tables emptied first,
+    optional float32 session under config.precision = 32, then low orders, >= 18, >= 40, and back down."""
+    rng = case_rng('hist', name, variant)
+    w = hi - lo
+    x = np.array([lo + w * f for f in (0.09375, 0.40625, 0.65625, 0.90625)])
+    x32 = x[1:3].astype(np.float32)
+    top = 41 if name not in ('hermite_He', 'hermite_H', 'laguerre') else 40
+    HISTORY[0] = variant
+    try:
+        clear_caches()
+        if variant.startswith('f32'):
+            o32 = [5] if 'low' in variant else [top]
+            th = []
+            for pv in plist:
+                val, der, dseq = make(pv)
+                th += [lambda val=val, der=der, dseq=dseq: (der(o32[0], x32), dseq([0, o32[0]], x32), val(o32[0], x32))]
+            warm32(*th)
+        for step, n in enumerate(hist_orders(variant, top)):
+            for pv in plist:
+                val, der, dseq = make(pv)
+                desc = {'fn': name + '_der', 'n': n, 'params': pv, 'step': step, 'variant': variant, 'class': f'{name}_der:history:{variant}'}
+                ctx.case(desc)
+                with guard(name + '_der', desc, lenlabel='n=0' if n == 0 else 'n>=1'):
+                    der_check(name, val, der, n, x, x, lo, hi, desc)
+                if step % 3 == 2:
+                    ns = sorted(set(hist_orders(variant, top)[max(0, step - 2):step + 1]))
+                    desc = {'fn': name + '_der_seq', 'ns': ns, 'params': pv, 'step': step, 'variant': variant, 'class': f'{name}_der_seq:history:{variant}'}
+                    ctx.case(desc)
+                    with guard(name + '_der_seq', desc, lenlabel='seq'):
+                        der_seq_check(name, val, dseq, ns, ns, x, x, lo, hi, desc)
+    finally:
+        HISTORY[0] = None
+
+
+def history_zernike(ctx, variant):
+    from prysm.polynomials import zernike_nm, zernike_nm_der, zernike_nm_der_seq
+    r = np.array([0.09375, 0.40625, 0.65625, 0.90625])
+    t = np.array([0.5, 1.75, 3.0, 5.5])
+    r32, t32 = r[1:3].astype(np.float32), t[1:3].astype(np.float32)
+    HISTORY[0] = variant
+    try:
+        clear_caches()
+        if variant.startswith('f32'):
+            nj = 3 if 'low' in variant else 20
+            warm32(*[lambda m=m: (zernike_nm_der(2 * nj + m, m, r32, t32), zernike_nm(2 * nj + m, m, r32, t32)) for m in (0, 1, 2, 4)])
+        for step, nj in enumerate([1, 2, 9, 20, 8, 0, 19, 3] if variant != 'f64-high-then-low' else [20, 9, 19, 8, 2, 1, 0, 3]):
+            for m in (0, 1, -2, 4, -4):
+                n = 2 * nj + abs(m)
+                norm = bool((step + m) % 2)
+                desc = {'fn': 'zernike_nm_der', 'n': n, 'm': m, 'norm': norm, 'step': step, 'variant': variant, 'class': f'zernike_nm_der:history:{variant}'}
+                ctx.case(desc)
+                with guard('zernike_nm_der', desc, lenlabel=mclass(m)):
+                    dr, dt = zernike_nm_der(n, m, r, t, norm=norm)
+                    with quiet():
+                        (rr, ur, rs, fs), (rt_, ut, ts, fs2) = zernike_oracle(zernike_nm, n, m, r, t, norm)
+                    judge('zernike_nm_der.dr', dr, rr, ur, f'C09/zernike_nm_der/dr/{mclass(m)}', 'zernike_nm_der: dZ/dr is not the radial derivative of zernike_nm', desc,
+                          refsup=rs, fsup=fs, dscale=2.0)
+                    judge('zernike_nm_der.dt', dt, rt_, ut, f'C09/zernike_nm_der/dt/{mclass(m)}', 'zernike_nm_der: dZ/dt is not the azimuthal derivative of zernike_nm', desc,
+                          refsup=ts, fsup=fs2, dscale=1.0)
+            pick = [(2 * nj + 1, 1), (2 * nj + 4, -4), (2 * nj, 0), (2 * max(nj - 1, 0) + 2, 2)]
+            desc = {'fn': 'zernike_nm_der_seq', 'nms': pick, 'step': step, 'variant': variant, 'class': f'zernike_nm_der_seq:history:{variant}'}
+            ctx.case(desc)
+            with guard('zernike_nm_der_seq', desc, lenlabel='seq'):
+                got = np.asarray(zernike_nm_der_seq(pick, r, t, norm=True))
+                ctx.observe('zernike_nm_der_seq')
+                if got.shape != (len(pick), 2) + r.shape:
+                    ctx.violation('C09/zernike_nm_der_seq/shape', f'zernike_nm_der_seq returned shape {got.shape}', desc)
+                    continue
+                for row, (n, m) in enumerate(pick):
+                    with quiet():
+                        (rr, ur, rs, fs), (rt_, ut, ts, fs2) = zernike_oracle(zernike_nm, n, m, r, t, True)
+                    judge('zernike_nm_der_seq', got[row, 0], rr, ur, f'C09/zernike_nm_der_seq/dr/{mclass(m)}', 'zernike_nm_der_seq: radial row is not d/dr of zernike_nm',
+                          desc, refsup=rs, fsup=fs, dscale=2.0, nm=(n, m))
+                    judge('zernike_nm_der_seq', got[row, 1], rt_, ut, f'C09/zernike_nm_der_seq/dt/{mclass(m)}', 'zernike_nm_der_seq: azimuthal row is not d/dt of zernike_nm',
+                          desc, refsup=ts, fsup=fs2, dscale=1.0, nm=(n, m))
+    finally:
+        HISTORY[0] = None
+
+
+def explicit_slope(which, c0, u0, m=0):
+    """(sag, slope, uncertainty, refsup, fsup) of sum_k c0[k] * mode_k from the value routines, differentiated spectrally."""
+    from prysm.polynomials import Qbfs, Qcon, Q2d
+    c0 = [float(v) for v in c0]
+    u0 = np.asarray(u0, dtype=float)
+
+    def sample(nodes):
+        U = nodes.reshape((-1,) + (1,) * u0.ndim) + np.zeros(u0.shape)
+        if which == 'Qbfs':
+            return sum(c * Qbfs(k, U) for k, c in enumerate(c0))
+        if which == 'Qcon':
+            return sum(c * Qcon(k, U) for k, c in enumerate(c0))
+        return sum(c * Q2d(k, m, U, np.zeros(U.shape)) for k, c in enumerate(c0))
+    with quiet():
+        ref, unc, refsup, fsup = spectral(sample, 0.0, 1.0, u0, 1, 2 * len(c0) + 8 + abs(m))
+        sag = sample(np.array([0.5]))      # shape probe only
+    return ref, unc, refsup, fsup
+
+
+def history_clenshaw(ctx, variant):
+    """Class B/C/D for the Clenshaw derivative routines and the sag-and-slope evaluators: short sums first, then >= 18 and >= 40
+    coefficients for the same (alpha, beta) / m, then short again; the contracts judge every row."""
+    from prysm.polynomials import jacobi_sum_clenshaw_der
+    from prysm.polynomials.qpoly import clenshaw_qbfs_der, clenshaw_q2d_der, compute_z_zprime_Qbfs, compute_z_zprime_Qcon, compute_z_zprime_Q2d
+    rng = case_rng('hist-clenshaw', variant)
+    x = np.array([-0.8125, -0.21875, 0.34375, 0.84375])
+    u = np.array([0.09375, 0.40625, 0.65625, 0.90625])
+    t = np.array([0.5, 1.75, 3.0, 5.5])
+    x32, u32 = x[1:3].astype(np.float32), u[1:3].astype(np.float32)
+    lens = [3, 6, 19, 42, 18, 4, 41, 1, 2] if variant != 'f64-high-then-low' else [42, 19, 41, 18, 6, 3, 1, 4, 2]
+    HISTORY[0] = variant
+    try:
+        clear_caches()
+        if variant.startswith('f32'):
+            L = 6 if 'low' in variant else 42
+            c32 = [float(v) for v in rng.normal(size=L)]
+            warm32(lambda: jacobi_sum_clenshaw_der(c32, 0.25, -0.25, x32, j=2), lambda: jacobi_sum_clenshaw_der(c32, 0, 4, x32, j=1),
+                   lambda: clenshaw_qbfs_der(c32, u32 * u32, j=2), lambda: compute_z_zprime_Qbfs(c32, u32, u32 * u32), lambda: compute_z_zprime_Qcon(c32, u32, u32 * u32),
+                   *[lambda m=m: clenshaw_q2d_der(c32, m, u32 * u32, j=2) for m in (1, 2, 3)],
+                   lambda: compute_z_zprime_Q2d(c32, [c32, c32[:3]], [c32[:2], c32], u32, u32))
+        for step, L in enumerate(lens):
+            c = [float(v) for v in rng.normal(size=L)]
+            for al, be in ((0.25, -0.25), (0.25, 0.75), (0, 4)):
+                for j in (1, 2):
+                    desc = {'fn': 'jacobi_sum_clenshaw_der', 'len': L, 'j': j, 'alpha': al, 'beta': be, 'step': step, 'variant': variant, 'class': f'jacobi_sum_clenshaw_der:history:{variant}'}
+                    ctx.case(desc)
+                    with guard('jacobi_sum_clenshaw_der', desc, lenlabel=lenclass(L), jlabel=jclass(j, L)):
+                        jacobi_sum_clenshaw_der(c, al, be, x, j=j)
+            for j in (1, 2):
+                desc = {'fn': 'clenshaw_qbfs_der', 'len': L, 'j': j, 'step': step, 'variant': variant, 'class': f'clenshaw_qbfs_der:history:{variant}'}
+                ctx.case(desc)
+                with guard('clenshaw_qbfs_der', desc, lenlabel=lenclass(L), jlabel=jclass(j, L)):
+                    clenshaw_qbfs_der(c, u * u, j=j)
+                for m in (1, 2, 3):
+                    if L > 30 and m == 3:
+                        continue
+                    desc = {'fn': 'clenshaw_q2d_der', 'len': L, 'j': j, 'm': m, 'step': step, 'variant': variant, 'class': f'clenshaw_q2d_der:history:{variant}'}
+                    ctx.case(desc)
+                    with guard('clenshaw_q2d_der', desc, lenlabel=lenclass(L), jlabel=jclass(j, L)):
+                        clenshaw_q2d_der(c, m, u * u, j=j)
+            for which, fn in (('Qbfs', compute_z_zprime_Qbfs), ('Qcon', compute_z_zprime_Qcon)):
+                desc = {'fn': f'compute_z_zprime_{which}', 'len': L, 'step': step, 'variant': variant, 'class': f'compute_z_zprime_{which}:history:{variant}'}
+                ctx.case(desc)
+                slope_check(f'compute_z_zprime_{which}.slope', f'compute_z_zprime_{which}', lambda U: fn(list(c), U, U * U), u, desc,
+                            f'C09/compute_z_zprime_{which}/slope/{lenclass(L)}', 2 * L + 4, lenclass(L))
+            if L <= 20:
+                cm0, ams, bms = c, [c[:max(1, L // 2)], c], [c, c[:max(1, L // 3)]]
+                desc = {'fn': 'compute_z_zprime_Q2d', 'len': L, 'step': step, 'variant': variant, 'class': f'compute_z_zprime_Q2d:history:{variant}'}
+                ctx.case(desc)
+                deg, mmax = q2d_degree(cm0, ams, bms)
+                lab = 'list-len1' if L <= 3 else 'regular'
+                polar_check('compute_z_zprime_Q2d', 'compute_z_zprime_Q2d',
+                            lambda R, T: compute_z_zprime_Q2d(list(cm0), [list(a) for a in ams], [list(b) for b in bms], R, T),
+                            u, t, 0.0, 1.0, deg + 4, 2 * mmax + 4, desc, f'C09/compute_z_zprime_Q2d/{lab}', lab)
+    finally:
+        HISTORY[0] = None
+
+
+def alias_coefs(ctx):
+    """Class A: ONE float64 coefficient array handed to the fast evaluators one after the other (and to the Clenshaw derivative
+    routines, whose contracts read it back); every slope is judged against the derivative of the explicit sum with the PRISTINE
+    coefficients, so a routine that writes into np.asarray(coefs) is seen by the next call."""
+    from prysm.polynomials import jacobi_sum_clenshaw_der, jacobi_sum_clenshaw
+    from prysm.polynomials.qpoly import (clenshaw_qbfs, clenshaw_qbfs_der, clenshaw_q2d, clenshaw_q2d_der, compute_z_zprime_Qbfs,
+                                         compute_z_zprime_Qcon, compute_z_zprime_Q2d, change_basis_Qbfs_to_Pn, change_of_basis_Q2d_to_Pnm)
+    rng = case_rng('alias-coefs')
+    for L in (1, 2, 5, 9):
+        c0 = rng.normal(size=L)
+        a0 = rng.normal(size=max(1, L - 1))
+        b0 = rng.normal(size=L + 1)
+        for cls, mk in (('ndarray-f64', lambda v: np.array(v, dtype=np.float64)), ('ndarray-f64-strided', lambda v: np.repeat(np.array(v, dtype=np.float64), 2)[::2]),
+                        ('list', lambda v: [float(q) for q in v]), ('tuple', lambda v: tuple(float(q) for q in v)), ('list-of-numpy-floats', lambda v: [np.float64(q) for q in v])):
+            c, a, b = mk(c0), mk(a0), mk(b0)
+            u = np.array([0.09375, 0.40625, 0.65625, 0.90625])
+            t = np.array([0.5, 1.75, 3.0, 5.5])
+            x = 2 * u * u - 1
+            steps = [('clenshaw_qbfs', lambda: clenshaw_qbfs(c, u * u), None),
+                     ('compute_z_zprime_Qbfs', lambda: compute_z_zprime_Qbfs(c, u, u * u), 'Qbfs'),
+                     ('clenshaw_qbfs_der', lambda: clenshaw_qbfs_der(c, u * u, j=2), None),
+                     ('compute_z_zprime_Qbfs', lambda: compute_z_zprime_Qbfs(c, u, u * u), 'Qbfs'),
+                     ('jacobi_sum_clenshaw', lambda: jacobi_sum_clenshaw(c, 0, 4, x), None),
+                     ('compute_z_zprime_Qcon', lambda: compute_z_zprime_Qcon(c, u, u * u), 'Qcon'),
+                     ('jacobi_sum_clenshaw_der', lambda: jacobi_sum_clenshaw_der(c, 0, 4, x, j=2), None),
+                     ('compute_z_zprime_Qcon', lambda: compute_z_zprime_Qcon(c, u, u * u), 'Qcon'),
+                     ('change_basis_Qbfs_to_Pn', lambda: change_basis_Qbfs_to_Pn(c), None),
+                     ('compute_z_zprime_Qbfs', lambda: compute_z_zprime_Qbfs(c, u, u * u), 'Qbfs'),
+                     ('clenshaw_q2d', lambda: clenshaw_q2d(a, 1, u * u), None),
+                     ('clenshaw_q2d_der', lambda: clenshaw_q2d_der(a, 1, u * u, j=1), None),
+                     ('change_of_basis_Q2d_to_Pnm', lambda: change_of_basis_Q2d_to_Pnm(b, 2), None),
+                     ('compute_z_zprime_Q2d', lambda: compute_z_zprime_Q2d(c, [a, b], [b, a], u, t), 'Q2d'),
+                     ('compute_z_zprime_Q2d', lambda: compute_z_zprime_Q2d(c, [a, b], [b, a], u, t), 'Q2d'),
+                     ('clenshaw_q2d_der', lambda: clenshaw_q2d_der(b, 2, u * u, j=2), None),
+                     ('compute_z_zprime_Qbfs', lambda: compute_z_zprime_Qbfs(c, u, u * u), 'Qbfs')]
+            for step, (fn, thunk, which) in enumerate(steps):
+                desc = {'fn': fn, 'len': L, 'coefs_as': cls, 'step': step, 'class': f'{fn}:shared-coefficients:{cls}'}
+                ctx.case(desc)
+                with guard(fn, desc, lenlabel=lenclass(L), jlabel='j>=len' if L <= 2 else '2<=j<len'):
+                    out = thunk()
+                    if which in ('Qbfs', 'Qcon'):
+                        ref, unc, refsup, fsup = explicit_slope(which, c0, u)
+                        judge(f'compute_z_zprime_{which}.slope', out[1], ref, unc, f'C09/compute_z_zprime_{which}/slope/after-call-sharing-coefficients',
+                              f'compute_z_zprime_{which}: the slope is not d/du of sum c_n {which}_n(u) for the coefficients the caller passed '
+                              '(an earlier call was handed the same coefficient object)', desc, refsup=refsup, fsup=fsup, dscale=2.0)
+                    elif which == 'Q2d':
+                        # radial slope at t: sum over the three families, each differentiated from the explicit sum of the pristine coefficients
+                        r0, u0_, rs0, fs0 = explicit_slope('Qbfs', c0, u)
+                        tot, unc, rsup, fsup = r0.copy(), np.abs(u0_), rs0, fs0
+                        for m, (ca, cb) in enumerate(((a0, b0), (b0, a0)), start=1):
+                            ra, ua, rsa, fsa = explicit_slope('Q2d', ca, u, m)
+                            rb, ub, rsb, fsb = explicit_slope('Q2d', cb, u, m)
+                            tot = tot + ra * np.cos(m * t) + rb * np.sin(m * t)
+                            unc = unc + np.abs(ua) + np.abs(ub)
+                            rsup += rsa + rsb
+                            fsup += fsa + fsb
+                        judge('compute_z_zprime_Q2d.dr', out[1], tot, unc, 'C09/compute_z_zprime_Q2d/dr/after-call-sharing-coefficients',
+                              'compute_z_zprime_Q2d: the radial slope is not d/du of the explicit sum for the coefficients the caller passed', desc,
+                              refsup=rsup, fsup=fsup, dscale=2.0)
+            ok = all(np.array_equal(np.asarray(p, dtype=float), q) for p, q in ((c, c0), (a, a0), (b, b0)))
+            ctx.event('shared-coefficients-left-intact' if ok else 'shared-coefficients-MUTATED')
+
+
+def alias_x(ctx):
+    """Class A: one coordinate object shared by consecutive derivative calls, judged against the pristine values; result stability."""
+    from prysm.polynomials import zernike_nm, zernike_nm_der
+    for name, plist, make, lo, hi, seq2d in families():
+        pv = plist[0] if plist[0] != 'rand' else (0.3, -0.3)
+        val, der, dseq = make(pv)
+        rng = case_rng('alias-x', name)
+        w = hi - lo
+        for cls, shp in (('1d', (5,)), ('2d', (2, 3)), ('0d', ())):
+            x0 = np.asarray(lo + w * (0.03 + 0.94 * rng.random(shp)))
+            x = x0.copy()
+            kept = []
+            for step, n in enumerate((3, 0, 7, 1, 18, 2)):
+                desc = {'fn': name + '_der', 'n': n, 'params': pv, 'step': step, 'x': cls, 'class': f'{name}_der:shared-coordinates:{cls}'}
+                ctx.case(desc)
+                with guard(name + '_der', desc, lenlabel='n=0' if n == 0 else 'n>=1'):
+                    got = der(n, x)
+                    with quiet():
+                        ref, unc, refsup, fsup = spectral(lambda nodes: val(n, nodes), lo, hi, x0, 1, n + 4)
+                    judge('der1d', got, ref, unc, f'C09/{name}_der/after-call-sharing-coordinates', f'{name}_der(n) is not d/dx of {name}(n) at the coordinates the caller '
+                          'passed (an earlier call was handed the same coordinate object)', desc, refsup=refsup, fsup=fsup, dscale=2 / w)
+                    if isinstance(got, np.ndarray):
+                        kept.append((got, got.copy()))
+                if step % 3 == 2 and cls != '0d':
+                    ns = [0, 2, 5]
+                    desc = {'fn': name + '_der_seq', 'ns': ns, 'params': pv, 'step': step, 'x': cls, 'class': f'{name}_der_seq:shared-coordinates:{cls}'}
+                    ctx.case(desc)
+                    if cls == '2d' and not seq2d:
+                        continue
+                    with guard(name + '_der_seq', desc, lenlabel='seq'):
+                        der_seq_check(name, val, dseq, ns, ns, x, x0, lo, hi, desc)
+            for got, snap in kept:
+                ctx.require('alias.result-stable', np.array_equal(got, snap, equal_nan=True), f'C09/{name}_der/result-changed-by-later-call',
+                            f'{name}_der: an array returned earlier was modified by a later call', {'fn': name + '_der', 'x': cls, 'class': f'{name}_der:result-stability'})
+    rng = case_rng('alias-x', 'zernike')
+    for cls, shp in (('1d', (5,)), ('2d', (2, 3))):
+        r0 = 0.03 + 0.94 * rng.random(shp)
+        t0 = rng.uniform(-1, 7, shp)
+        r, t = r0.copy(), t0.copy()
+        for step, (n, m) in enumerate(((3, 1), (4, -2), (2, 0), (20, 4), (5, -1))):
+            desc = {'fn': 'zernike_nm_der', 'n': n, 'm': m, 'step': step, 'x': cls, 'class': f'zernike_nm_der:shared-coordinates:{cls}'}
+            ctx.case(desc)
+            with guard('zernike_nm_der', desc, lenlabel=mclass(m)):
+                dr, dt = zernike_nm_der(n, m, r, t, norm=bool(step % 2))
+                with quiet():
+                    (rr, ur, rs, fs), (rt_, ut, ts, fs2) = zernike_oracle(zernike_nm, n, m, r0, t0, bool(step % 2))
+                judge('zernike_nm_der.dr', dr, rr, ur, 'C09/zernike_nm_der/dr/after-call-sharing-coordinates', 'zernike_nm_der: dZ/dr is not the radial derivative at the '
+                      'coordinates the caller passed', desc, refsup=rs, fsup=fs, dscale=2.0)
+                judge('zernike_nm_der.dt', dt, rt_, ut, 'C09/zernike_nm_der/dt/after-call-sharing-coordinates', 'zernike_nm_der: dZ/dt is not the azimuthal derivative at the '
+                      'coordinates the caller passed', desc, refsup=ts, fsup=fs2, dscale=1.0)
+
+
+def layout_units(ctx):
+    """Class A, memory layout of coordinate arrays for *_der, *_der_seq, zernike_nm_der and the sag-and-slope evaluators."""
+    from prysm.polynomials import zernike_nm, zernike_nm_der
+    from prysm.polynomials.qpoly import compute_z_zprime_Qbfs, compute_z_zprime_Qcon, compute_z_zprime_Q2d
+    for name, plist, make, lo, hi, seq2d in families():
+        pv = plist[1 % len(plist)] if plist[1 % len(plist)] != 'rand' else (0.3, -0.3)
+        val, der, dseq = make(pv)
+        rng = case_rng('layout', name)
+        w = hi - lo
+        for base in (lo + w * (0.03 + 0.94 * rng.random((3, 4))), lo + w * (0.03 + 0.94 * rng.random(6))):
+            for lab, xv in layouts(base, full=True):
+                if lab == 'C':
+                    continue
+                for n in (3, 18):
+                    desc = {'fn': name + '_der', 'n': n, 'params': pv, 'layout': lab, 'ndim': base.ndim, 'class': f'{name}_der:layout:{lab}:{base.ndim}d'}
+                    ctx.case(desc)
+                    with guard(name + '_der', desc, lenlabel='n>=1'):
+                        der_check(name, val, der, n, xv, xv, lo, hi, desc)
+                if base.ndim == 1 or seq2d:
+                    desc = {'fn': name + '_der_seq', 'ns': [0, 3, 18], 'params': pv, 'layout': lab, 'ndim': base.ndim, 'class': f'{name}_der_seq:layout:{lab}:{base.ndim}d'}
+                    ctx.case(desc)
+                    with guard(name + '_der_seq', desc, lenlabel='seq'):
+                        der_seq_check(name, val, dseq, [0, 3, 18], [0, 3, 18], xv, xv, lo, hi, desc)
+    rng = case_rng('layout', 'polar')
+    rb, tb = 0.03 + 0.94 * rng.random((3, 4)), rng.uniform(-1, 7, (3, 4))
+    c = [float(v) for v in rng.normal(size=5)]
+    for (lr, rv), (lt, tv) in zip(layouts(rb), layouts(tb)[1:] + layouts(tb)[:1]):
+        lab = f'{lr}/{lt}'
+        for n, m in ((5, 3), (4, -2), (6, 0)):
+            desc = {'fn': 'zernike_nm_der', 'n': n, 'm': m, 'layout': lab, 'class': f'zernike_nm_der:layout:{lab}'}
+            ctx.case(desc)
+            with guard('zernike_nm_der', desc, lenlabel=mclass(m)):
+                dr, dt = zernike_nm_der(n, m, rv, tv)
+                with quiet():
+                    (rr, ur, rs, fs), (rt_, ut, ts, fs2) = zernike_oracle(zernike_nm, n, m, rb, tv + 0.0, True)
+                judge('zernike_nm_der.dr', dr, rr, ur, f'C09/zernike_nm_der/dr/{mclass(m)}/memory-layout', 'zernike_nm_der: dZ/dr wrong for non-C-contiguous coordinates', desc, refsup=rs, fsup=fs, dscale=2.0)
+                judge('zernike_nm_der.dt', dt, rt_, ut, f'C09/zernike_nm_der/dt/{mclass(m)}/memory-layout', 'zernike_nm_der: dZ/dt wrong for non-C-contiguous coordinates', desc, refsup=ts, fsup=fs2, dscale=1.0)
+        for which, fn in (('Qbfs', compute_z_zprime_Qbfs), ('Qcon', compute_z_zprime_Qcon)):
+            desc = {'fn': f'compute_z_zprime_{which}', 'len': 5, 'layout': lr, 'class': f'compute_z_zprime_{which}:layout:{lr}'}
+            ctx.case(desc)
+            with guard(f'compute_z_zprime_{which}', desc, lenlabel='len>=2'):
+                z, zp = fn(c, rv, rv * rv)
+                ref, unc, refsup, fsup = explicit_slope(which, c, rb)
+                judge(f'compute_z_zprime_{which}.slope', zp, ref, unc, f'C09/compute_z_zprime_{which}/slope/memory-layout',
+                      f'compute_z_zprime_{which}: the slope is wrong for non-C-contiguous coordinates', desc, refsup=refsup, fsup=fsup, dscale=2.0)
+        desc = {'fn': 'compute_z_zprime_Q2d', 'layout': lab, 'class': f'compute_z_zprime_Q2d:layout:{lab}'}
+        ctx.case(desc)
+        deg, mmax = q2d_degree(c, [c[:3], c], [c, c[:2]])
+        polar_check('compute_z_zprime_Q2d', 'compute_z_zprime_Q2d',
+                    lambda R, T: compute_z_zprime_Q2d(list(c), [c[:3], list(c)], [list(c), c[:2]], R, T), rv, tv, 0.0, 1.0, deg + 4, 2 * mmax + 4, desc,
+                    'C09/compute_z_zprime_Q2d/regular', 'regular')
+
+
+def container_units(ctx):
+    """Class A, containers: order lists of *_der_seq as list / tuple / int ndarray / range / numpy ints; Clenshaw coefficient vectors
+    as list / tuple / float64 ndarray / strided ndarray / numpy floats / float32 ndarray (single-precision class)."""
+    from prysm.polynomials import jacobi_sum_clenshaw_der
+    from prysm.polynomials.qpoly import clenshaw_qbfs_der, clenshaw_q2d_der, compute_z_zprime_Qbfs, compute_z_zprime_Qcon
+    for name, plist, make, lo, hi, seq2d in families():
+        pv = plist[0] if plist[0] != 'rand' else (0.3, -0.3)
+        val, der, dseq = make(pv)
+        rng = case_rng('containers', name)
+        x = lo + (hi - lo) * (0.03 + 0.94 * rng.random(5))
+        for ns in ([0, 1, 2, 3], [2, 5, 19], [18]):
+            for lab, cont in order_containers(ns):
+                desc = {'fn': name + '_der_seq', 'ns': ns, 'orders_as': lab, 'params': pv, 'class': f'{name}_der_seq:orders-as-{lab}'}
+                ctx.case(desc)
+                with guard(name + '_der_seq', desc, lenlabel='seq'):
+                    der_seq_check(name, val, dseq, ns, cont, x, x, lo, hi, desc)
+        for lab, nn in (('int64', np.int64(5)), ('int32', np.int32(5))):
+            desc = {'fn': name + '_der', 'n': 5, 'n_as': lab, 'params': pv, 'class': f'{name}_der:n-as-{lab}'}
+            ctx.case(desc)
+            with guard(name + '_der', desc, lenlabel='n>=1'):
+                der_check(name, val, der, nn, x, x, lo, hi, desc)
+    rng = case_rng('containers', 'clenshaw')
+    x = rng.uniform(-0.9, 0.9, 5)
+    u = 0.03 + 0.94 * rng.random(5)
+    for L in (1, 4, 9):
+        c0 = [float(v) for v in rng.normal(size=L)]
+        for lab, cont, exact in coef_containers(c0):
+            for j in (1, 2):
+                desc = {'fn': 'clenshaw-der', 'len': L, 'j': j, 'coefs_as': lab, 'class': f'clenshaw-der:coefs-as-{lab}'}
+                ctx.case(desc)
+                with guard('jacobi_sum_clenshaw_der', desc, lenlabel=lenclass(L), jlabel=jclass(j, L)):
+                    jacobi_sum_clenshaw_der(cont, 0.25, -0.25, x, j=j)
+                with guard('clenshaw_qbfs_der', desc, lenlabel=lenclass(L), jlabel=jclass(j, L)):
+                    clenshaw_qbfs_der(cont, u * u, j=j)
+                with guard('clenshaw_q2d_der', desc, lenlabel=lenclass(L), jlabel=jclass(j, L)):
+                    clenshaw_q2d_der(cont, 1 + j, u * u, j=j)
+            if exact:
+                for which, fn in (('Qbfs', compute_z_zprime_Qbfs), ('Qcon', compute_z_zprime_Qcon)):
+                    desc = {'fn': f'compute_z_zprime_{which}', 'len': L, 'coefs_as': lab, 'class': f'compute_z_zprime_{which}:coefs-as-{lab}'}
+                    ctx.case(desc)
+                    with guard(f'compute_z_zprime_{which}', desc, lenlabel=lenclass(L), jlabel='j>=len' if L == 1 else 'j=1'):
+                        z, zp = fn(cont, u, u * u)
+                        ref, unc, refsup, fsup = explicit_slope(which, c0, u)
+                        judge(f'compute_z_zprime_{which}.slope', zp, ref, unc, f'C09/compute_z_zprime_{which}/slope/{lenclass(L)}',
+                              f'compute_z_zprime_{which}: the slope is not d/du of the explicit sum', desc, refsup=refsup, fsup=fsup, dscale=2.0)
+
+
+def cfg32_units(ctx):
+    """Class C: config.precision = 32 - the *_der / *_der_seq routines on float32 and float64 coordinates (orders <= 8) and the Clenshaw
+    derivative routines (<= 12 coefficients; judged by the contracts), all at single-precision tolerances."""
+    from prysm.polynomials import jacobi_sum_clenshaw_der
+    from prysm.polynomials.qpoly import clenshaw_qbfs_der, clenshaw_q2d_der
+    with precision(32):
+        for name, plist, make, lo, hi, seq2d in families():
+            for pi, pv in enumerate(plist[:2]):
+                if pv == 'rand':
+                    continue
+                val, der, dseq = make(pv)
+                rng = case_rng('cfg32', name, pi)
+                w = hi - lo
+                for n in (0, 1, 2, 3, 5, 8):
+                    for cls, x in (('f32-1d', (lo + w * (0.03 + 0.94 * rng.random(5))).astype(np.float32)), ('f64-1d', lo + w * (0.03 + 0.94 * rng.random(5))),
+                                   ('f32-2d', (lo + w * (0.03 + 0.94 * rng.random((2, 3)))).astype(np.float32))):
+                        desc = {'fn': name + '_der', 'n': n, 'params': pv, 'x': cls, 'class': f'{name}_der:precision=32:{cls}'}
+                        ctx.case(desc)
+                        with guard(name + '_der', desc, lenlabel='n=0' if n == 0 else 'n>=1'):
+                            der_check(name, val, der, n, x, x, lo, hi, desc, f32=True)
+                for cls, x in (('f32-1d', (lo + w * (0.03 + 0.94 * rng.random(5))).astype(np.float32)), ('f64-1d', lo + w * (0.03 + 0.94 * rng.random(5)))):
+                    desc = {'fn': name + '_der_seq', 'ns': [0, 1, 2, 5, 8], 'params': pv, 'x': cls, 'class': f'{name}_der_seq:precision=32:{cls}'}
+                    ctx.case(desc)
+                    with guard(name + '_der_seq', desc, lenlabel='seq'):
+                        der_seq_check(name, val, dseq, [0, 1, 2, 5, 8], [0, 1, 2, 5, 8], x, x, lo, hi, desc, f32=True)
+        rng = case_rng('cfg32', 'clenshaw')
+        for L in (1, 2, 5, 9, 12):
+            c = [float(v) for v in rng.normal(size=L)]
+            for cls, mk in (('f32', lambda v: v.astype(np.float32)), ('f64', lambda v: v)):
+                x = mk(rng.uniform(-0.9, 0.9, 5))
+                u = mk(0.03 + 0.94 * rng.random(5))
+                for j in (1, 2):
+                    desc = {'fn': 'clenshaw-der', 'len': L, 'j': j, 'x': cls, 'class': f'clenshaw-der:precision=32:{cls}'}
+                    ctx.case(desc)
+                    with guard('jacobi_sum_clenshaw_der', desc, lenlabel=lenclass(L), jlabel=jclass(j, L)):
+                        jacobi_sum_clenshaw_der(c, 0.25, -0.25, x, j=j)
+                    with guard('clenshaw_qbfs_der', desc, lenlabel=lenclass(L), jlabel=jclass(j, L)):
+                        clenshaw_qbfs_der(c if j == 1 else np.array(c, dtype=np.float32), u * u, j=j)
+                    with guard('clenshaw_q2d_der', desc, lenlabel=lenclass(L), jlabel=jclass(j, L)):
+                        clenshaw_q2d_der(c, j, u * u, j=j)
+
+
+def high_order_units(ctx, part, nparts):
+    """Class D in the quick tier too: orders / lengths >= 18 and >= 40."""
+    from prysm.polynomials import zernike_nm, zernike_nm_der, jacobi_sum_clenshaw_der
+    from prysm.polynomials.qpoly import clenshaw_qbfs_der, clenshaw_q2d_der, compute_z_zprime_Qbfs, compute_z_zprime_Qcon
+    i = -1
+    for name, plist, make, lo, hi, seq2d in families():
+        for pi, pv in enumerate(plist[:3]):
+            i += 1
+            if i % nparts != part or pv == 'rand':
+                continue
+            val, der, dseq = make(pv)
+            rng = case_rng('high', name, pi)
+            x = lo + (hi - lo) * (0.03 + 0.94 * rng.random(5))
+            x32 = x[:2].astype(np.float32)
+            for n in (18, 19, 41, 60 if name not in ('hermite_He', 'hermite_H', 'laguerre') else 40):
+                warm32(lambda: der(n, x32), lambda: val(n, x32))
+                desc = {'fn': name + '_der', 'n': n, 'params': pv, 'class': f'{name}_der:high-order'}
+                ctx.case(desc)
+                with guard(name + '_der', desc, lenlabel='n>=1'):
+                    der_check(name, val, der, n, x, x, lo, hi, desc)
+            ns = [0, 17, 18, 41]
+            desc = {'fn': name + '_der_seq', 'ns': ns, 'params': pv, 'class': f'{name}_der_seq:high-order'}
+            ctx.case(desc)
+            with guard(name + '_der_seq', desc, lenlabel='seq'):
+                der_seq_check(name, val, dseq, ns, ns, x, x, lo, hi, desc)
+    if part == 0:
+        rng = case_rng('high', 'zernike')
+        r, t = 0.03 + 0.94 * rng.random(5), rng.uniform(-1, 7, 5)
+        for n, m in ((18, 0), (19, -1), (20, 20), (41, 1), (40, -4), (44, 0)):
+            desc = {'fn': 'zernike_nm_der', 'n': n, 'm': m, 'class': 'zernike_nm_der:high-order'}
+            ctx.case(desc)
+            with guard('zernike_nm_der', desc, lenlabel=mclass(m)):
+                dr, dt = zernike_nm_der(n, m, r, t)
+                with quiet():
+                    (rr, ur, rs, fs), (rt_, ut, ts, fs2) = zernike_oracle(zernike_nm, n, m, r, t, True)
+                judge('zernike_nm_der.dr', dr, rr, ur, f'C09/zernike_nm_der/dr/{mclass(m)}', 'zernike_nm_der: dZ/dr is not the radial derivative of zernike_nm', desc, refsup=rs, fsup=fs, dscale=2.0)
+                judge('zernike_nm_der.dt', dt, rt_, ut, f'C09/zernike_nm_der/dt/{mclass(m)}', 'zernike_nm_der: dZ/dt is not the azimuthal derivative of zernike_nm', desc, refsup=ts, fsup=fs2, dscale=1.0)
+
+
+def run_hardening(ctx, counter):
+    def mine():
+        counter[0] += 1
+        return ctx.mine(counter[0])
+    for fi, (name, plist, make, lo, hi) in enumerate(fam_table()):
+        variants = HIST_VARIANTS if not ctx.quick else [HIST_VARIANTS[fi % 2], HIST_VARIANTS[2 + (fi // 2) % 2]]
+        for v in variants:
+            if mine():
+                history_1d(ctx, name, plist, make, lo, hi, v)
+    for v in HIST_VARIANTS:
+        if mine():
+            history_zernike(ctx, v)
+        if mine():
+            history_clenshaw(ctx, v)
+    for fn in (alias_coefs, alias_x, layout_units, container_units, cfg32_units):
+        if mine():
+            fn(ctx)
+    hp = ctx.pick(2, 4)
+    for part in range(hp):
+        if mine():
+            high_order_units(ctx, part, hp)
+
+
 # ------------------------------------------------------------------------------------------ driver
 def run(ctx):
     global CTX
@@ -939,6 +1578,7 @@ def run(ctx):
     install()
     try:
         counter = [-1]
+        run_hardening(ctx, counter)
         run_1d(ctx, counter)
         run_seq(ctx, counter)
         run_zernike(ctx, counter)
@@ -948,7 +1588,8 @@ def run(ctx):
         run_surfaces(ctx, counter)
         run_q2d_and_der(ctx, counter)
         run_normals(ctx, counter)
-        ctx.note('orders', f'1-D families: every order 0..{ctx.pick(12, 60)}; Zernike: every (n, m) with n <= {ctx.pick(12, 40)}; Clenshaw sums: lengths 1..{ctx.pick(12, 30)}, j=1..{ctx.pick(4, 6)}')
+        ctx.note('orders', f'1-D families: every order 0..{ctx.pick(12, 80)} (+ 18, 19, 41, 60 in the quick tier); Zernike: every (n, m) with n <= {ctx.pick(12, 50)}; '
+                           f'Clenshaw sums: lengths 1..{ctx.pick(12, 50)} (+ 19, 41, 42 in the quick tier), j=1..{ctx.pick(4, 6)}')
     finally:
         detach_all()
 
